@@ -61,6 +61,9 @@ def _work(job):
                                                   backend=job["cfg"][2], principal=(list(job["cfg"]) + ["/user/"])[3])
         elif kind == "store":
             tr, conc = storedriver.run_store_session(job["seed"], job["store"], job["profile"])
+        elif kind == "witness":
+            tr, conc = davgen.run_witness_session(job["witness"], frontend=job["cfg"][0], prefix=job["cfg"][1],
+                                                  backend=job["cfg"][2], principal=(list(job["cfg"]) + ["/user/"])[3])
         else:
             raise ValueError(kind)
         tr["job"] = {k: v for k, v in job.items() if k != "behaviour"}
@@ -150,6 +153,11 @@ def run(prop, tier, seed, replay=None):
             tid += 1
             jobs.append({"kind": "random", "seed": rng.randrange(1 << 30), "profile": prop,
                          "cfg": cfg, "tid": tid})
+    # the witness history of every listed (open) finding of this cluster, re-run as recorded
+    for d, e in sorted(devs.items()):
+        if e.get("witness") and e.get("property") == prop:
+            tid += 1
+            jobs.append({"kind": "witness", "witness": e["witness"], "cfg": HTTP_CONFIGS[0], "tid": tid, "dev": d})
     # fault sequences: writes interrupted by an injected ENOSPC (served state only is judged)
     if prop in ("C01", "C02", "C08"):
         for k in range(10 if quick else 100):
